@@ -50,7 +50,7 @@ Lemma code_rejected_names : forall (is_ip : bytes -> bool) name,
   gen_sniproxy_isRejectedDomain is_ip name = true.
 Proof.
   intros is_ip name H. rewrite gen_isRejectedDomain_is_model.
-  exact (proj1 (rejected_names is_ip deployed_suffixes {| has_lookup := false; lookup := fun _ => None;
+  exact (proj1 (rejected_names is_ip deployed_suffixes {| has_lookup := false; lookup := fun _ => mkLk None false;
            has_dial_home := false; registry := fun _ => None |} name H)).
 Qed.
 
